@@ -16,7 +16,7 @@ ASSUMPTIONS = [
 GATES = ["mon.C20.shadow", "mon.C20.structure", "C20.link_to_link", "C20.link_other_tree", "C20.ctor_kwargs", "C20.ctor_kwargs_on_link_target", "C20.write_via_link", "C20.write_via_target",
          "C20.missing_attr_raises", "C20.struct_on_link", "C20.struct_on_target", "C20.veto", "C20.falsy_target", "C20.property_target", "C20.equal_but_distinct_value"]
 
-NAMES = ["foo", "bar", "baz", "x1", "value_", "lng", "k9", "_p", "__q", "name", "été", "data"]
+NAMES = ["foo", "bar", "baz", "x1", "value_", "lng", "k9", "_p", "__q", "name", "été", "data", "t", "get", "tar", "a"]
 
 
 def plan(tier, seed, jobs):
@@ -262,6 +262,21 @@ def run(ctx):
         run_history(ctx, hid, ctx.rng("hist", i), (100 if T else 40))
     # directed: constructor keywords on every kind of target
     from .. import forest as F
+    from anytree import PreOrderIter
+
+    # directed: a link to a LightNodeMixin-based target that has children - the link's children are its own
+    for depth in (1, 2):
+        t = F.LM("lt")
+        kids = [F.LM("k%d" % i, parent=t) for i in range(2)]
+        link = F.HSymMixin(t)
+        for d in range(depth - 1):
+            link = F.HSymMixin(link)
+        ctx.case(("directed-lm", depth))
+        ctx.count("mon.C20.structure")
+        got = {"descendants": len(link.descendants), "size": link.size, "preorder": len(list(PreOrderIter(link))), "leaves": len(link.leaves), "children": len(link.children)}
+        want = {"descendants": 0, "size": 1, "preorder": 1, "leaves": 1, "children": 0}
+        if got != want or [c.parent is t for c in kids] != [True, True]:
+            ctx.violation("C20/structure/link-shows-targets-children", "structural-model", {"directed": "link chain of depth %d to a LightNodeMixin target with two children" % depth}, expected=want, observed=got)
 
     for depth in (0, 1, 2, 3):
         t = F.HNode("base")
